@@ -299,7 +299,8 @@ def _r8(ctx):
     for st in walk_function(f.node):
         if isinstance(st, ast.Assign) and any(isinstance(c.func, ast.Attribute) and c.func.attr == "groupby" and
                                               any(const_value(a) == "node_id" for a in c.args) for c in calls_in(st.value)):
-            k = o.oc(st.value, {}, f)
+            from ..astutil import inline_single_defs
+            k = o.oc(inline_single_defs(f.node, st.value), {}, f)
             n += 1
             if k in ("ROWG", "ROW"):
                 ctx.holds(f, st, "per-node maxima %s: nodes in order of appearance" % norm_text(st.value))
@@ -586,7 +587,7 @@ def _r1(ctx):
             continue
         ctx.violated(fi, stmt, "reduction %s runs over all assessment points of the batch: the result of a point then "
                      "depends on which other points are assessed with it (group by the point level)" % what, text=what)
-    if n_grouped < 9:
+    if n_grouped < 6:
         raise AnalysisError("only %d grouped reductions recognised; point-axis typing lost its seeds" % n_grouped)
     # positive example
     src = ("class P:\n    def f(self):\n        a = self._collective.S_max.abs().max()\n"
@@ -704,7 +705,28 @@ def _r3(ctx):
                 if any(isinstance(x, ast.Assign) and any(isinstance(t, ast.Attribute) and t.attr == "P_RAJ_klass_max"
                                                          for t in x.targets) for x in blk):
                     blocks.append((s, blk))
-    if len(blocks) != 2:
+    shared_ok = False
+    if len(blocks) == 0:
+        # de-duplicated: the class-limit block lives in one helper method that every site calls
+        helpers = {}
+        for c in calls_in(f.node):
+            if isinstance(c.func, ast.Attribute) and is_self_attr(c.func):
+                h = prog.lookup_method(f.cls, c.func.attr)
+                if h is not None and any(isinstance(x, ast.Assign) and any(isinstance(t, ast.Attribute) and t.attr == "P_RAJ_klass_max"
+                                                                           for t in x.targets) for x in walk_function(h.node)):
+                    helpers.setdefault(h.key, []).append(c)
+        if len(helpers) == 1 and len(next(iter(helpers.values()))) >= 1:
+            hk, cs = next(iter(helpers.items()))
+            argsets = {tuple(norm_text(a) for a in c.args) + tuple(sorted((k.arg, norm_text(k.value)) for k in c.keywords)) for c in cs}
+            if len(argsets) == 1:
+                ctx.holds(f, cs[0], "the class-limit block is one shared helper (%s) called with the same arguments at %d site(s)" %
+                          (hk.split(".")[-1], len(cs)))
+                shared_ok = True
+            else:
+                ctx.violated(f, cs[0], "the sites of the class-limit computation call %s with different arguments %s" %
+                             (hk.split(".")[-1], sorted(argsets)), text="class-limit copies")
+                shared_ok = True
+    if not shared_ok and len(blocks) != 2:
         raise AnalysisError("expected the class-limit block twice in the crack opening loop, found %d" % len(blocks))
 
     def core(blk):
@@ -717,13 +739,14 @@ def _r3(ctx):
         if start is None:
             raise AnalysisError("class-limit block without l_star definition")
         return blk[start:]
-    d, na, nb = diff_blocks(core(blocks[0][1]), core(blocks[1][1]))
-    if not d:
-        ctx.holds(f, blocks[1][0], "the two copies of the class-limit block agree (%d statements)" % na)
-    else:
-        tag, ta, sa, tb, sb = d[0]
-        ctx.violated(f, sb or sa or blocks[1][0], "the two copies of the class-limit block differ: %s  vs  %s" %
-                     (" ; ".join(ta) or "(nothing)", " ; ".join(tb) or "(nothing)"), text="class-limit copies")
+    if not shared_ok:
+        d, na, nb = diff_blocks(core(blocks[0][1]), core(blocks[1][1]))
+        if not d:
+            ctx.holds(f, blocks[1][0], "the two copies of the class-limit block agree (%d statements)" % na)
+        else:
+            tag, ta, sa, tb, sb = d[0]
+            ctx.violated(f, sb or sa or blocks[1][0], "the two copies of the class-limit block differ: %s  vs  %s" %
+                         (" ; ".join(ta) or "(nothing)", " ; ".join(tb) or "(nothing)"), text="class-limit copies")
     a = prog.func("pylife.strength.fkm_nonlinear.damage_calculator:DamageCalculatorPRAM._initialize_collective_index")
     b = prog.func("pylife.strength.fkm_nonlinear.damage_calculator:DamageCalculatorPRAJ._initialize_collective_index")
     skip = lambda s: isinstance(s, ast.Assert)
